@@ -181,9 +181,33 @@ def main(prop, tier, seed, replay=None):
                 except subprocess.TimeoutExpired:
                     ctx.notes.append("leanchecker timed out (not a verdict)")
 
-    # 4. correspondence + oracle on generated inputs
+    # 4. correspondence + oracle: the corpus of minimised past failures first, then generated inputs
+    corpus_dir = os.path.join(VERIF, "corpus", prop)
+    corpus_viol, corpus_dis, corpus_n = [], [], 0
+    if hasattr(mod, "corpus") and os.path.isdir(corpus_dir):
+        try:
+            for fn in sorted(os.listdir(corpus_dir)):
+                if fn.endswith(".json"):
+                    with open(os.path.join(corpus_dir, fn)) as f:
+                        entry = json.load(f)
+                    d, v = mod.corpus(ctx, entry)
+                    corpus_n += 1
+                    for x in d:
+                        x["corpus"] = fn
+                    corpus_dis += d
+                    corpus_viol += v
+        except Exception:
+            print("INFRA corpus check crashed:\n" + traceback.format_exc())
+            if ctx.model is not None:
+                ctx.model.close()
+            return 2
     try:
         res = mod.run(ctx)
+        res.setdefault("violations", [])
+        res.setdefault("disagreements", [])
+        res["violations"] = corpus_viol + res["violations"]
+        res["disagreements"] = corpus_dis + res["disagreements"]
+        res.setdefault("coverage", {})["corpus_entries"] = corpus_n
     except Exception:
         print("INFRA check crashed:\n" + traceback.format_exc())
         if ctx.model is not None:
